@@ -67,6 +67,18 @@ def make_items(tier, seed):
                 if corner_need[k] == 0:
                     del corner_need[k]
                 break
+    if tier == "thorough":
+        # two deliberately SLOW pooled batches (more than 30 s of wall-clock for the initial population): results must be gathered
+        # however long the evaluations take (a gather with a time limit would drop the late ones)
+        n_slow = 0
+        for i in idx:
+            c = universe.case(i)
+            if n_slow >= 2:
+                break
+            if c["opt"] in ("ParticleSwarmOptimization", "GreyWolfOptimization", "WhalesOptimization") and tasks.is_strict_class(c["spec"]) \
+                    and c["cfg"]["max_cycles"] == 1 and c["cfg"]["population_size"] == 20:
+                items.append({"i": i, "mode": ("thread", "process")[n_slow], "workers": 2, "delay": {"fixed_ms": 3300, "salt": "slow"}})
+                n_slow += 1
     return items
 
 
